@@ -130,4 +130,15 @@ def run(rec, tier, seed):
                 rec.case(('pop', n, vi, args), group='pop')
                 if msg:
                     rec.fail('delete', 'pop', "pop(%s) on %r: %s" % (', '.join(map(str, args)), spec, msg), {'spec': spec, 'idx': list(args), 'via': 'pop'}, 'C10/pop/post')
-    rec.bounds = {'max_atoms': nmax, 'variants': len(variants)}
+    # larger structures (not exhaustive): half or more of 9-14 atoms deleted, index lists in random order
+    for n in (9, 11, 14):
+        for vi, var in enumerate(variants[:3]):
+            spec = dict(n=n, seed=vi, **var)
+            for trial in range(4 if tier == 'quick' else 16):
+                k = rnd.randrange(n // 2, n - 1)
+                idx = rnd.sample(range(n), k)
+                msg = check_delete(spec, tuple(idx))
+                rec.case(('del-large', n, vi, tuple(idx)), group='delitem-large')
+                if msg:
+                    rec.fail('delete', 'delitem', "del a[%r] on %r: %s" % (list(idx), spec, msg), {'spec': spec, 'idx': list(idx)}, 'C10/__delitem__/post')
+    rec.bounds = {'max_atoms_exhaustive': nmax, 'max_atoms_sampled': 14, 'variants': len(variants)}
